@@ -61,9 +61,40 @@ def _loads(e):
     return {n.id for n in ast.walk(e) if isinstance(n, ast.Name) and isinstance(n.ctx, ast.Load)}
 
 
+def module_constants(module):
+    """Module-level names bound exactly once, at module level, to a literal / tuple of names (e.g. a tuple of types given a
+    name) and never declared global in a function: a function reading such a name reads that value."""
+    stores, out = {}, {}
+
+    def walk(body):
+        for s in body:
+            if isinstance(s, (ast.FunctionDef, ast.AsyncFunctionDef, ast.ClassDef)):
+                stores[s.name] = stores.get(s.name, 0) + 1
+                continue
+            for n in ast.walk(s):
+                if isinstance(n, ast.Name) and isinstance(n.ctx, (ast.Store, ast.Del)):
+                    stores[n.id] = stores.get(n.id, 0) + 1
+                elif isinstance(n, ast.alias):
+                    nm = (n.asname or n.name).split('.')[0]
+                    stores[nm] = stores.get(nm, 0) + 1
+    tree = getattr(module, 'tree', None)
+    if tree is None:
+        return out
+    walk(tree.body)
+    glob = {nm for n in ast.walk(tree) if isinstance(n, (ast.Global, ast.Nonlocal)) for nm in n.names}
+    for s in tree.body:
+        if isinstance(s, ast.Assign) and len(s.targets) == 1 and isinstance(s.targets[0], ast.Name):
+            nm, v = s.targets[0].id, s.value
+            simple = all(isinstance(x, (ast.Tuple, ast.Name, ast.Attribute, ast.Constant, ast.Load)) for x in ast.walk(v))
+            if stores.get(nm) == 1 and nm not in glob and simple:
+                out[nm] = v
+    return out
+
+
 class Flow:
-    def __init__(self, fn):
+    def __init__(self, fn, consts=None):
         self.fn = fn
+        self.consts = consts or {}
         self.gm = guard_map(fn)
         self.order = {}
         self.test_owner = {}
@@ -135,7 +166,9 @@ class Flow:
     def _unchanged(self, value, d, at):
         """Every free name of `value` has the same binding at the definition `d` and at the use `at`, and nothing that may run
         in between writes through one of them."""
-        names = _loads(value)
+        return self._unchanged_names(_loads(value), d, at)
+
+    def _unchanged_names(self, names, d, at):
         for x in names:
             b1, b2 = self.binder(x, d), self.binder(x, at)
             if b1 is AMBIGUOUS or b1 is not b2:
@@ -158,6 +191,11 @@ class Flow:
             v = def_value(d)
             if v is not None and not isinstance(d, ast.AugAssign):
                 return d, v
+            # `if c: name = A else: name = B` is the conditional expression `A if c else B`
+            if isinstance(d, ast.If) and len(d.body) == 1 and len(d.orelse) == 1:
+                a, b = def_value(d.body[0]), def_value(d.orelse[0])
+                if a is not None and b is not None and binds(d.body[0], name) and binds(d.orelse[0], name) and isinstance(d.body[0], ast.Assign) and isinstance(d.orelse[0], ast.Assign):
+                    return d, ast.copy_location(ast.IfExp(test=d.test, body=a, orelse=b), d)
         return d, None
 
     def resolve(self, e, at, _depth=0, trace=None):
@@ -190,6 +228,8 @@ class Flow:
                     if trace is not None:
                         trace.append(d)
                     return flow.resolve(v, d, _depth + 1, trace)
+                if d is None and node.id in flow.consts:
+                    return copy.deepcopy(flow.consts[node.id])      # a named module-level constant
                 return node
         return T().visit(copy.deepcopy(e))
 
@@ -207,6 +247,20 @@ class Flow:
             seen += 1
         return e
 
+    def value(self, e, at):
+        """What the expression stands for at `at`: a name parked in a local is looked through (deref), pure locals inside are resolved."""
+        seen = 0
+        while isinstance(e, ast.Name) and seen < 8:
+            d, v = self.definition(e.id, at)
+            if v is None or not self._unchanged(v, d, at):
+                break
+            uses = [n for n in ast.walk(self.fn) if isinstance(n, ast.Name) and n.id == e.id and isinstance(n.ctx, ast.Load)]
+            if not _pure(v) and len(uses) != 1:
+                break
+            e, at = v, d
+            seen += 1
+        return self.resolve(e, at)
+
     def atoms_at(self, stmt):
         """Path condition of `stmt` as atoms over resolved expressions (each test resolved where it is evaluated)."""
         out = set()
@@ -223,7 +277,8 @@ class Flow:
         -> [(iterable, target name, atoms that hold for some element)]."""
         out = []
         for t0, p in self.gm[stmt]:
-            t = t0
+            owner = self.test_owner.get(id(t0))
+            t = self.resolve(t0, owner) if owner is not None and not isinstance(owner, ast.While) else t0
             while isinstance(t, ast.UnaryOp) and isinstance(t.op, ast.Not):
                 t, p = t.operand, not p
             if not (isinstance(t, ast.Call) and isinstance(t.func, ast.Name) and t.func.id in ('all', 'any') and len(t.args) == 1 and not t.keywords):
@@ -245,9 +300,7 @@ class Flow:
                     break
                 a = a | ca
             if ok:
-                owner = self.test_owner.get(id(t0))
-                it = self.resolve(gen.iter, owner) if owner is not None else gen.iter
-                out.append((it, gen.target.id, a))
+                out.append((gen.iter, gen.target.id, a))
         return out
 
 
@@ -273,6 +326,9 @@ def _element(x):
         return ast.Tuple(elts=[ast.Name(id=K, ctx=ast.Load()), _element(x.args[0])], ctx=ast.Load())
     if isinstance(x, ast.Call) and isinstance(x.func, ast.Name) and x.func.id == 'range' and len(x.args) == 1 and not x.keywords:
         return ast.Name(id=K, ctx=ast.Load())
+    if isinstance(x, ast.Call) and isinstance(x.func, ast.Name) and x.func.id == 'map' and len(x.args) >= 2 and not x.keywords:
+        # lazy map: the k-th item is f applied to the k-th items, computed when the item is requested
+        return ast.Call(func=copy.deepcopy(x.args[0]), args=[_element(a) for a in x.args[1:]], keywords=[])
     if isinstance(x, ast.Subscript) and isinstance(x.slice, ast.Slice) and x.slice.step is None:
         lo = x.slice.lower
         if lo is None:
@@ -299,6 +355,8 @@ def _length(x, env):
             return best
         if x.func.id == 'enumerate' and len(x.args) == 1:
             return _length(x.args[0], env)
+        if x.func.id == 'map' and len(x.args) >= 2:
+            return _length(ast.Call(func=ast.Name(id='zip', ctx=ast.Load()), args=x.args[1:], keywords=[]), env)
         if x.func.id == 'range' and len(x.args) == 1:
             a = Aff.try_of(x.args[0])
             return a.subst(env) if a is not None else None
@@ -492,12 +550,403 @@ def _ret_atoms(fl, r):
     return fl.atoms_at(r)
 
 
+# ---------------------------------------------------------------------- path-by-path symbolic execution of small functions
+#
+# Constructors and other straight-line decision code are judged by what they DO in each situation, not by how the decisions
+# are written: the function is executed symbolically once per combination of truth values of the atomic tests it consults
+# (`x is None`, isinstance(x, C), emptiness, a comparison), and the outcome of every run (attributes stored, calls made in
+# order, value returned, exception raised) is compared with the specified outcome for that situation.
+
+class _Fork(Exception):
+    def __init__(self, key):
+        self.key = key
+
+
+SX_PURE = {'len', 'isinstance', 'range', 'int', 'type', 'enumerate', 'zip', 'map', 'iter'}
+
+
+def _call_ref(n):
+    return ast.Name(id=f'@{n}', ctx=ast.Load())
+
+
+class Sx:
+    """One symbolic run of `fn` under `scenario` (dict test-key -> bool).  Terms are expressions over the function's inputs;
+    the result of an effectful call is a reference `@n` into `self.calls` (evaluation order)."""
+
+    def __init__(self, fn, scenario, consts=None, what=''):
+        self.fn, self.scenario, self.consts, self.what = fn, scenario, consts or {}, what or fn.name
+        self.env, self.attrs = {}, {}
+        self.calls = []          # call terms, in evaluation order
+        self.effects = []        # ('call', n) | ('store', target text, term) | ('setitem', target term, term) | ('loop', For node)
+        self.read = []           # test keys consulted, in order
+        self.outcome = None      # ('return', term | None) | ('raise', name) | ('fall', None)
+
+    # ----- terms
+    def expand(self, t):
+        sx = self
+
+        class T(ast.NodeTransformer):
+            def visit_Name(self, node):
+                if node.id.startswith('@'):
+                    return self.visit(copy.deepcopy(sx.calls[int(node.id[1:])]))
+                return node
+        return T().visit(copy.deepcopy(t))
+
+    def text(self, t, sc=None):
+        """Text of a term for comparison with the specification (inputs known to be None in situation `sc` read None)."""
+        return None if t is None else u(_canon_term(self.expand(t), self.scenario if sc is None else sc))
+
+    def ktext(self, t):
+        return u(_canon_term(self.expand(t), {}))
+
+    def ev(self, e):
+        if isinstance(e, ast.Constant):
+            return e
+        if isinstance(e, ast.Name):
+            if e.id in self.env:
+                return copy.deepcopy(self.env[e.id])
+            if e.id in self.consts:
+                return copy.deepcopy(self.consts[e.id])
+            return ast.Name(id=e.id, ctx=ast.Load())
+        if isinstance(e, ast.Attribute):
+            node = ast.Attribute(value=self.ev(e.value), attr=e.attr, ctx=ast.Load())
+            k = u(self.expand(node))
+            return copy.deepcopy(self.attrs[k]) if k in self.attrs else node
+        if isinstance(e, ast.Subscript):
+            return ast.Subscript(value=self.ev(e.value), slice=self.ev(e.slice), ctx=ast.Load())
+        if isinstance(e, ast.Slice):
+            return ast.Slice(lower=self.ev(e.lower) if e.lower else None, upper=self.ev(e.upper) if e.upper else None, step=self.ev(e.step) if e.step else None)
+        if isinstance(e, (ast.Tuple, ast.List)):
+            return type(e)(elts=[self.ev(x) for x in e.elts], ctx=ast.Load())
+        if isinstance(e, ast.IfExp):
+            return self.ev(e.body) if self.truth(self.ev(e.test)) else self.ev(e.orelse)
+        if isinstance(e, ast.BoolOp):
+            return ast.BoolOp(op=e.op, values=[self.ev(v) for v in e.values])
+        if isinstance(e, ast.UnaryOp):
+            return ast.UnaryOp(op=e.op, operand=self.ev(e.operand))
+        if isinstance(e, ast.BinOp):
+            return ast.BinOp(left=self.ev(e.left), op=e.op, right=self.ev(e.right))
+        if isinstance(e, ast.Compare):
+            return ast.Compare(left=self.ev(e.left), ops=e.ops, comparators=[self.ev(c) for c in e.comparators])
+        if isinstance(e, ast.Call):
+            if any(isinstance(a, ast.Starred) for a in e.args) or any(k.arg is None for k in e.keywords):
+                raise Undecided(f'{self.what}: star arguments in {u(e)[:60]}')
+            call = ast.Call(func=self.ev(e.func) if isinstance(e.func, ast.Attribute) else e.func, args=[self.ev(a) for a in e.args],
+                            keywords=[ast.keyword(arg=k.arg, value=self.ev(k.value)) for k in e.keywords])
+            if isinstance(e.func, ast.Name) and e.func.id in SX_PURE and e.func.id not in self.env:
+                return call
+            self.calls.append(call)
+            self.effects.append(('call', len(self.calls) - 1))
+            return _call_ref(len(self.calls) - 1)
+        if isinstance(e, _COMP):
+            return self._subst(e)
+        if isinstance(e, (ast.JoinedStr, ast.Lambda)):
+            return e
+        raise Undecided(f'{self.what}: expression {u(e)[:60]} is outside what the path evaluation understands')
+
+    def _subst(self, e, keep=()):
+        """Copy of `e` with locals replaced by their terms (names bound inside `e` or listed in `keep` are left alone)."""
+        sx = self
+
+        class T(ast.NodeTransformer):
+            def __init__(self):
+                self.bound = [set(keep)]
+
+            def _comp(self, node):
+                names = set()
+                for g in node.generators:
+                    names |= {n.id for n in ast.walk(g.target) if isinstance(n, ast.Name)}
+                self.bound.append(names)
+                self.generic_visit(node)
+                self.bound.pop()
+                return node
+            visit_ListComp = visit_SetComp = visit_DictComp = visit_GeneratorExp = _comp
+
+            def visit_Lambda(self, node):
+                return node
+
+            def visit_Name(self, node):
+                if isinstance(node.ctx, ast.Load) and not any(node.id in b for b in self.bound) and node.id in sx.env:
+                    return copy.deepcopy(sx.env[node.id])
+                return node
+
+            def visit_Attribute(self, node):
+                self.generic_visit(node)
+                k = u(sx.expand(node))
+                return copy.deepcopy(sx.attrs[k]) if k in sx.attrs and isinstance(node.ctx, ast.Load) else node
+        return T().visit(copy.deepcopy(e))
+
+    # ----- tests
+    def ask(self, key):
+        if key not in self.scenario:
+            raise _Fork(key)
+        self.read.append(key)
+        return self.scenario[key]
+
+    def truth(self, t):
+        if isinstance(t, ast.Constant):
+            return bool(t.value)
+        if isinstance(t, ast.UnaryOp) and isinstance(t.op, ast.Not):
+            return not self.truth(t.operand)
+        if isinstance(t, ast.BoolOp):
+            if isinstance(t.op, ast.And):
+                return all(self.truth(v) for v in t.values)
+            return any(self.truth(v) for v in t.values)
+        if isinstance(t, ast.Call) and isinstance(t.func, ast.Name) and t.func.id == 'isinstance' and len(t.args) == 2:
+            return self.ask(('isinstance', self.ktext(t.args[0]), self.ktext(t.args[1])))
+        if isinstance(t, ast.Compare):
+            res, left = True, t.left
+            for op, right in zip(t.ops, t.comparators):
+                res = res and self._cmp(left, op, right)
+                if not res:
+                    return False
+                left = right
+            return res
+        if isinstance(t, (ast.Tuple, ast.List)):
+            return bool(t.elts)
+        return self.ask(('truthy', self.ktext(t)))
+
+    def _cmp(self, l, op, r):
+        if isinstance(op, (ast.Is, ast.IsNot, ast.Eq, ast.NotEq)) and (is_none(l) or is_none(r)):
+            o = r if is_none(l) else l
+            v = is_none(o) if isinstance(o, ast.Constant) else self.ask(('none', self.ktext(o)))
+            return v if isinstance(op, (ast.Is, ast.Eq)) else not v
+        a = atoms(ast.Compare(left=l, ops=[op], comparators=[r]), True, key=self.ktext)
+        if not a or len(a) != 1:
+            raise Undecided(f'{self.what}: comparison {self.ktext(l)} {type(op).__name__} {self.ktext(r)} cannot be put in normal form')
+        (kind, x, y), = a
+        # lengths are never negative: comparisons of len(...) with 0 / 1 are emptiness tests
+        def ln(z):
+            return z[4:-1] if z.startswith('len(') and z.endswith(')') and z.count('(') == z.count(')') else None
+        if kind in ('eq', 'ne') and '0' in (x, y) and ln(y if x == '0' else x):
+            v = self.ask(('truthy', ln(y if x == '0' else x)))
+            return (not v) if kind == 'eq' else v
+        if kind in ('lt', 'le'):
+            if ln(y) and x in ('0', '1', '-1'):              # c < len / c <= len
+                c = int(x) + (1 if kind == 'lt' else 0)       # len >= c
+                return True if c <= 0 else self.ask(('truthy', ln(y))) if c == 1 else self.ask(('lt', x, y) if kind == 'lt' else ('le', x, y))
+            if ln(x) and y in ('0', '1', '-1'):              # len < c / len <= c
+                c = int(y) - (1 if kind == 'lt' else 0)       # len <= c
+                return False if c < 0 else (not self.ask(('truthy', ln(x)))) if c == 0 else self.ask(('lt', x, y) if kind == 'lt' else ('le', x, y))
+        if kind == 'ne':
+            return not self.ask(('eq', x, y))
+        if kind == 'le':
+            return not self.ask(('lt', y, x))
+        if kind in ('notin', 'isnot'):
+            return not self.ask(({'notin': 'in', 'isnot': 'is'}[kind], x, y))
+        return self.ask((kind, x, y))
+
+    # ----- statements
+    def bind(self, target, v):
+        if isinstance(target, ast.Name):
+            self.env[target.id] = v
+        elif isinstance(target, (ast.Tuple, ast.List)):
+            if isinstance(v, (ast.Tuple, ast.List)) and len(v.elts) == len(target.elts):
+                for t, x in zip(target.elts, v.elts):
+                    self.bind(t, x)
+            else:
+                for k, t in enumerate(target.elts):
+                    self.bind(t, ast.Subscript(value=copy.deepcopy(v), slice=ast.Constant(value=k), ctx=ast.Load()))
+        elif isinstance(target, ast.Attribute):
+            k = u(self.expand(ast.Attribute(value=self.ev(target.value), attr=target.attr, ctx=ast.Load())))
+            self.attrs[k] = v
+            self.effects.append(('store', k, v))
+        elif isinstance(target, ast.Subscript):
+            self.effects.append(('setitem', ast.Subscript(value=self.ev(target.value), slice=self.ev(target.slice), ctx=ast.Load()), v))
+        else:
+            raise Undecided(f'{self.what}: assignment target {u(target)[:40]}')
+
+    def run(self, stmts):
+        for s in stmts:
+            if self.outcome is not None:
+                return
+            if isinstance(s, ast.Expr) and isinstance(s.value, ast.Constant) or isinstance(s, ast.Pass):
+                continue
+            if isinstance(s, ast.Assign):
+                v = self.ev(s.value)
+                for t in s.targets:
+                    self.bind(t, v)
+            elif isinstance(s, ast.AnnAssign):
+                if s.value is not None:
+                    self.bind(s.target, self.ev(s.value))
+            elif isinstance(s, ast.AugAssign) and isinstance(s.target, ast.Name):
+                self.env[s.target.id] = ast.BinOp(left=self.ev(ast.Name(id=s.target.id, ctx=ast.Load())), op=s.op, right=self.ev(s.value))
+            elif isinstance(s, ast.Expr):
+                self.ev(s.value)
+            elif isinstance(s, ast.If):
+                self.run(s.body if self.truth(self.ev(s.test)) else s.orelse)
+            elif isinstance(s, ast.For) and not s.orelse:
+                stored = {n.id for n in ast.walk(s) if isinstance(n, ast.Name) and isinstance(n.ctx, ast.Store)}
+                if any(isinstance(x, (ast.Return, ast.Break)) for x in ast.walk(s)):
+                    raise Undecided(f'{self.what}: loop with return / break: {u(s)[:60]}')
+                loop = ast.For(target=s.target, iter=self._subst(s.iter), body=[self._subst(b, keep=stored) for b in s.body], orelse=[])
+                self.effects.append(('loop', ast.fix_missing_locations(ast.copy_location(loop, s))))
+                for nme in stored:
+                    self.env[nme] = ast.Name(id=f'?{nme}', ctx=ast.Load())
+            elif isinstance(s, ast.Return):
+                self.outcome = ('return', None if s.value is None else self.ev(s.value))
+            elif isinstance(s, ast.Raise):
+                self.outcome = ('raise', raised_name(s))
+            else:
+                raise Undecided(f'{self.what}: statement `{u(s)[:60]}` is outside what the path evaluation understands')
+
+    def top_effects(self):
+        """Effects that are not just the computation of a value used by a later effect / the result."""
+        used = set()
+
+        def refs(t):
+            if isinstance(t, ast.AST):
+                for n in ast.walk(t):
+                    if isinstance(n, ast.Name) and n.id.startswith('@'):
+                        used.add(int(n.id[1:]))
+        for c in self.calls:
+            refs(c)
+        for e in self.effects:
+            if e[0] in ('store', 'setitem'):
+                refs(e[2])
+                refs(e[1])
+            elif e[0] == 'loop':
+                refs(e[1])
+        if self.outcome and self.outcome[0] == 'return':
+            refs(self.outcome[1])
+        return [e for e in self.effects if not (e[0] == 'call' and e[1] in used)]
+
+
+def _canon_term(t, scenario):
+    """Normal form of a term for comparison: an input known to be None in this situation reads None; [f(x) for x in X] is
+    list(map(f, X))."""
+    nones = {k[1] for k, v in scenario.items() if k[0] == 'none' and v}
+
+    class T(ast.NodeTransformer):
+        def generic_visit(self, node):
+            if isinstance(node, ast.expr) and not isinstance(node, ast.Constant) and nones:
+                try:
+                    if u(node) in nones:
+                        return ast.Constant(value=None)
+                except Exception:
+                    pass
+            return super().generic_visit(node)
+
+        def visit_ListComp(self, node):
+            self.generic_visit(node)
+            if len(node.generators) == 1 and not node.generators[0].ifs and isinstance(node.generators[0].target, ast.Name) and isinstance(node.elt, ast.Call) \
+                    and isinstance(node.elt.func, (ast.Name, ast.Attribute)) and not node.elt.keywords and len(node.elt.args) == 1 \
+                    and isinstance(node.elt.args[0], ast.Name) and node.elt.args[0].id == node.generators[0].target.id \
+                    and node.generators[0].target.id not in {n.id for n in ast.walk(node.elt.func) if isinstance(n, ast.Name)}:
+                return ast.Call(func=ast.Name(id='list', ctx=ast.Load()), args=[ast.Call(func=ast.Name(id='map', ctx=ast.Load()), args=[node.elt.func, node.generators[0].iter], keywords=[])], keywords=[])
+            return node
+    return ast.fix_missing_locations(T().visit(copy.deepcopy(t)))
+
+
+def sx_paths(fi, consts=None, limit=256):
+    """Every path of the function: [(scenario, Sx)] - one run per combination of the tests it consults."""
+    body = [s for s in fi.node.body if not (isinstance(s, ast.Expr) and isinstance(s.value, ast.Constant))]
+    out, todo = [], [{}]
+    while todo:
+        sc = todo.pop()
+        if len(out) + len(todo) > limit:
+            raise Undecided(f'{fi.qualname}: more than {limit} paths')
+        sx = Sx(fi.node, sc, consts, fi.qualname)
+        try:
+            sx.run(body)
+        except _Fork as f:
+            todo.append({**sc, f.key: False})
+            todo.append({**sc, f.key: True})
+            continue
+        if sx.outcome is None:
+            sx.outcome = ('fall', None)
+        out.append((sc, sx))
+    return out
+
+
+def sx_complete(paths, keys, fi):
+    """Paths split further on specification keys they did not consult (same outcome for both values); a path that consults
+    a test the specification does not know makes the function undecidable for the rule."""
+    out = []
+    for sc, sx in paths:
+        extra = [k for k in sc if k not in keys]
+        if extra:
+            raise Undecided(f'{fi.qualname}: the outcome depends on the test {extra[0]}, which the specification of the rule does not mention')
+        scs = [dict(sc)]
+        for k in keys:
+            if k not in sc:
+                scs = [{**x, k: v} for x in scs for v in (True, False)]
+        out += [(x, sx) for x in scs]
+    return out
+
+
+def _cases(fl, t, pol, at, _depth=0):
+    """Disjunctive normal form of `t` having truth value `pol` when evaluated at statement `at`: a list of atom sets (each
+    joined with the path condition of the assignment it comes from when `t` is a flag variable).  None: cannot be evaluated."""
+    if _depth > 6 or at is None:
+        return None
+    if isinstance(t, ast.UnaryOp) and isinstance(t.op, ast.Not):
+        return _cases(fl, t.operand, not pol, at, _depth)
+    if isinstance(t, ast.Constant):
+        return [set()] if bool(t.value) == pol else []
+    if isinstance(t, ast.BoolOp):
+        parts = [_cases(fl, v, pol, at, _depth) for v in t.values]
+        if any(x is None for x in parts):
+            return None
+        if isinstance(t.op, ast.And) == pol:        # all parts hold
+            out = [set()]
+            for ps in parts:
+                out = [a | b for a in out for b in ps]
+            return out
+        return [c for ps in parts for c in ps]
+    if isinstance(t, ast.Name):
+        d, v = fl.definition(t.id, at)
+        if v is not None and fl._unchanged(v, d, at):
+            return _cases(fl, v, pol, d, _depth + 1)
+        if not isinstance(d, ast.AST):
+            return None
+        # a flag assigned on several branches of the statement that last bound it
+        sites = [x for x in [d] + list(stmts_in([d])) if isinstance(x, ast.Assign) and binds(x, t.id)]
+        if not sites or any(def_value(x) is None for x in sites) or any(isinstance(x, (ast.For, ast.While, ast.AugAssign)) and binds(x, t.id) for x in stmts_in([d])):
+            return None
+        base = fl.atoms_at(d)
+        out = []
+        for x in sites:
+            v = fl.resolve(def_value(x), x)
+            if not fl._unchanged_names(_loads(v), x, at):        # what the flag was computed from is still the same at the test
+                return None
+            cs = _cases(fl, v, pol, x, _depth + 1)
+            if cs is None:
+                return None
+            here = fl.atoms_at(x) - base
+            out += [c | here for c in cs]
+        return out
+    if isinstance(t, ast.Call) and not (isinstance(t.func, ast.Name) and t.func.id in PURE_CALLS):
+        return None
+    a = atoms(fl.resolve(t, at), pol)
+    return None if a is None else [a]
+
+
+def _all_in_range(case, ip):
+    """The facts show every element of the index array `ip` to be a valid (possibly negative) position: the array is empty, or
+    its minimum is >= -len(self) and its maximum is < len(self)."""
+    if ('eq', '0', f'{ip}.size') in case or ('eq', '0', f'len({ip})') in case:
+        return True
+    mins = {f'{ip}.min()', f'int({ip}.min())', f'np.min({ip})', f'int(np.min({ip}))', f'min({ip})'}
+    maxs = {f'{ip}.max()', f'int({ip}.max())', f'np.max({ip})', f'int(np.max({ip}))', f'max({ip})'}
+    n = sym('len(self)')
+
+    def aff(txt):
+        try:
+            return Aff.try_of(ast.parse(txt, mode='eval').body)
+        except SyntaxError:
+            return None
+    lo = any(f[0] in ('le', 'lt') and f[2] in mins and aff(f[1]) == (n.scale(-1) if f[0] == 'le' else n.scale(-1).plus(-1)) for f in case if len(f) == 3)
+    hi = any(f[0] in ('le', 'lt') and f[1] in maxs and aff(f[2]) == (n if f[0] == 'lt' else n.plus(-1)) for f in case if len(f) == 3)
+    return lo and hi
+
+
 def check_dispatch(ctx):
     rep, m = ctx.rep, ctx.model
     fi = m.func(f'{IDX}.__getitem__')
     rep.functions.add(fi.qualname)
     fn = fi.node
-    fl = Flow(fn)
+    fl = Flow(fn, module_constants(fi.module))
     gm = fl.gm
     ip = fi.params()[1]
     rets = [s for s in stmts_in(fn.body) if isinstance(s, ast.Return)]
@@ -519,13 +968,13 @@ def check_dispatch(ctx):
     # int
     r = ret_calling('_getitem_int')
     at = _ret_atoms(fl, r[0]) if r else set()
-    okint = len(r) == 1 and any(a in at for a in isinst(['(int, np.integer)', '(np.integer, int)'])) and u(r[0].value.args[0]) == f'self._check_index({ip})'
+    okint = len(r) == 1 and any(a in at for a in isinst(['(int, np.integer)', '(np.integer, int)'])) and len(r[0].value.args) == 1 and u(fl.value(r[0].value.args[0], r[0])) == f'self._check_index({ip})'
     rep.add('X1', fi.site(r[0] if r else fn), 'an integer index (Python or NumPy) is bounds-checked, normalised and delegated', okint, expected=f'_getitem_int(_check_index({ip})) under isinstance({ip}, (int, np.integer))',
             found=(u(r[0].value) if r else None, sorted(at)), stmt='int dispatch')
     # slice
     r = ret_calling('_getitem_slice')
     at = _ret_atoms(fl, r[0]) if r else set()
-    oks = len(r) == 1 and ('true', f'isinstance({ip}, slice)') in at and ('ne', '0', f'{ip}.step') in at and [u(a) for a in r[0].value.args] == [ip]
+    oks = len(r) == 1 and ('true', f'isinstance({ip}, slice)') in at and ('ne', '0', f'{ip}.step') in at and [u(fl.value(a, r[0])) for a in r[0].value.args] == [ip]
     rep.add('X1', fi.site(r[0] if r else fn), 'a slice with non-zero step is delegated unchanged', oks, expected=f'_getitem_slice({ip}) under isinstance(slice) and step != 0', found=(u(r[0].value) if r else None, sorted(at)),
             stmt='slice dispatch')
     zr = [x for x in raises if ('eq', '0', f'{ip}.step') in fl.atoms_at(x)]
@@ -562,8 +1011,28 @@ def check_dispatch(ctx):
     if r:
         # every element bounds-checked before the delegation
         loops = [s for s in stmts_in(fn.body) if isinstance(s, ast.For) and u(s.iter) == ip and fl.order[id(s)] < fl.order[id(r[0])]]
-        okc = any(len(lp.body) == 1 and isinstance(lp.body[0], ast.Expr) and u(lp.body[0].value) == f'self._check_index({u(lp.target)})' and fl.atoms_at(lp) <= at for lp in loops)
-        rep.add('X1', fi.site(loops[0] if loops else r[0]), 'every element of an integer index array is bounds-checked before use', okc, expected=f'for i in {ip}: self._check_index(i)', found=[u(lp)[:60] for lp in loops],
+        loops = [lp for lp in loops if len(lp.body) == 1 and isinstance(lp.body[0], ast.Expr) and u(lp.body[0].value) == f'self._check_index({u(lp.target)})']
+        # The per-element check runs on every path to the delegation, except under conditions that themselves show every
+        # element to be in range (an array-wide test -len(self) <= min, max < len(self), or an empty array).
+        okc, found, unknown = False, [u(lp)[:60] for lp in loops], None
+        for lp in loops:
+            shared = gm[r[0]]
+            extra = [(t, p) for (t, p) in gm[lp] if not any(t is t2 and p == p2 for (t2, p2) in shared)]
+            extra = [(t, p) for (t, p) in extra if not ((a := atoms(fl.resolve(t, fl.test_owner.get(id(t))), p)) is not None and a <= at)]
+            bad = []
+            for t, p in extra:
+                cs = _cases(fl, t, not p, fl.test_owner.get(id(t)))          # when the loop is skipped
+                if cs is None:
+                    unknown = u(t)
+                    continue
+                bad += [sorted(c) for c in cs if not _all_in_range(c, ip)]
+            if not bad and unknown is None:
+                okc = True
+                break
+            found = [u(lp)[:60] + ' ... skipped when ' + str(b) for b in bad] or found
+        rep.require(okc or unknown is None or not loops, f'__getitem__: the per-element bounds check is skipped under `{unknown}`, a condition the rule cannot evaluate '
+                    '(not built from comparisons / flags assigned from comparisons in this function)')
+        rep.add('X1', fi.site(loops[0] if loops else r[0]), 'every element of an integer index array is bounds-checked before use', okc, expected=f'for i in {ip}: self._check_index(i) (skipped only when all elements are shown in range)', found=found,
                 stmt='element bounds check')
     deleg = [r_ for r_ in rets if isinstance(r_.value, ast.Call) and u(r_.value.func) in ('self._getitem_int', 'self._getitem_slice', 'self._getitem_bool_array', 'self._getitem_int_array')]
     rep.account_returns('X1', fi, deleg, 'selection')
@@ -577,7 +1046,8 @@ def check_dispatch(ctx):
     rep.add('X1', fi.site(last), 'the dispatch is exhaustive: every path ends in a return or a raise (other dtypes raise IndexError)', exhaustive, expected='final else: raise IndexError', found=u(last)[:40], stmt='exhaustive')
     # empty-sequence special case keeps integer dtype
     emp = [s for s in stmts_in(fn.body) if isinstance(s, ast.Assign) and u(s.targets[0]) == ip and isinstance(s.value, ast.Call) and u(s.value.func) == 'np.empty']
-    oke = len(emp) == 1 and ('eq', '0', f'len({ip})') in fl.atoms_at(emp[0]) and u(get_arg(emp[0].value, 1, 'dtype')) == 'int'
+    oke = len(emp) == 1 and ('eq', '0', f'len({ip})') in fl.atoms_at(emp[0]) and u(get_arg(emp[0].value, 1, 'dtype')) == 'int' \
+        and u(get_arg(emp[0].value, 0, 'shape')) in ('0', '(0,)', '[0]')
     if oke or not opaque:
         rep.add('X1', fi.site(emp[0] if emp else fn), 'an empty index sequence selects nothing (integer dtype forced)', oke, expected='np.empty(0, dtype=int) under len(index) == 0', found=[u(e) for e in emp], stmt='empty sequence')
     conv = [c for c in calls_in(fn) if u(c.func) in ('np.asarray', 'np.array')]
@@ -590,13 +1060,19 @@ def check_dispatch(ctx):
     if okv or not opaque:
         rep.add('X1', fi.site(conv[0] if conv else fn), 'an object that cannot be interpreted as an index array raises IndexError', okv, expected='np.asarray failure -> IndexError', found=[u(c) for c in conv], stmt='conversion error')
     undecided = (not oke or not okv) and opaque
+    # conversion applies to everything that is not yet an array, and only to that (an array passes through as the same object)
+    convs = emp + [st_ for st_ in stmts_in(fn.body) if isinstance(st_, ast.Assign) and u(st_.targets[0]) == ip and isinstance(st_.value, ast.Call) and u(st_.value.func) in ('np.asarray', 'np.array')]
+    if convs and not opaque:
+        okg = all(('false', f'isinstance({ip}, np.ndarray)') in fl.atoms_at(c) for c in convs)
+        rep.add('X1', fi.site(convs[0]), 'only an index that is not already an array is converted to one', okg, expected=f'conversion under not isinstance({ip}, np.ndarray)', found=[sorted(fl.atoms_at(c)) for c in convs], stmt='conversion guard')
     # negative conversion adds len(self) exactly where negative
     adds = [c for c in calls_in(fn) if u(c.func) == 'np.add'] + [c for c in calls_in(fn) if u(c.func) == 'np.where']
     okn = False
     negname = None
     for c in adds:
         if u(c.func) == 'np.add':
-            okn = okn or ([u(a) for a in c.args] == [ip, 'len(self)'] and isinstance(get_kw(c, 'where'), ast.Name))
+            cst_ = next((s_ for s_ in stmts_in(fn.body) if not isinstance(s_, (ast.If, ast.For, ast.While, ast.With, ast.Try)) and any(x is c for x in ast.walk(s_))), None)
+            okn = okn or ([u(a) for a in c.args[:1]] + [u(fl.resolve(a, cst_)) for a in c.args[1:]] == [ip, 'len(self)'] and isinstance(get_kw(c, 'where'), ast.Name))
             negname = u(get_kw(c, 'where')) if get_kw(c, 'where') is not None else negname
         else:
             okn = okn or (len(c.args) == 3 and isinstance(c.args[0], ast.Name) and u(c.args[1]) in (f'{ip} + len(self)', f'len(self) + {ip}') and u(c.args[2]) == ip)
@@ -604,6 +1080,27 @@ def check_dispatch(ctx):
     isn = [s for s in stmts_in(fn.body) if isinstance(s, ast.Assign) and u(s.targets[0]) == negname]
     okn = okn and len(isn) == 1 and atoms(isn[0].value) == {('lt', ip, '0')}
     rep.add('X1', fi.site(adds[0] if adds else fn), 'negative entries are converted by adding len(self), others untouched', okn, expected='index + len(self) where index < 0', found=[u(c) for c in adds], stmt='negative conversion')
+    # ... and the conversion happens whenever there IS a negative entry: on the way to the delegation it is unconditional or
+    # skipped only when no entry is negative (`mask.any()` false for mask = index < 0)
+    r = ret_calling('_getitem_int_array')
+    if adds and r and len(isn) == 1:
+        cst = next((s_ for s_ in stmts_in(fn.body) if not isinstance(s_, (ast.If, ast.For, ast.While, ast.With, ast.Try)) and any(x is adds[0] for x in ast.walk(s_))), None)
+        rep.require(cst is not None, '__getitem__: the negative-index conversion is not a simple statement')
+        shared = gm[r[0]]
+        extra = [(t, p) for (t, p) in gm[cst] if not any(t is t2 and p == p2 for (t2, p2) in shared)]
+        anyneg = {f'{negname}.any()', f'np.any({negname})', f'any({negname})', f'({ip} < 0).any()', f'np.any({ip} < 0)', f'np.count_nonzero({negname})', f'{negname}.sum()'}
+        okw, odd = True, None
+        for t, p in extra:
+            while isinstance(t, ast.UnaryOp) and isinstance(t.op, ast.Not):
+                t, p = t.operand, not p
+            if u(t) in anyneg:
+                okw = okw and p             # skipped exactly when there is nothing to convert
+            elif isinstance(t, ast.Constant):
+                okw = okw and bool(t.value) == p
+            else:
+                odd = u(t)
+        rep.require(odd is None or not okw, f'__getitem__: the negative-index conversion is guarded by `{odd}`, a condition the rule cannot relate to "some entry is negative"')
+        rep.add('X1', fi.site(cst), 'the conversion is applied whenever some entry is negative', okw, expected=f'unconditional, or under {negname}.any()', found=[(u(t), p) for t, p in extra], stmt='negative conversion guard')
     rep.require(not undecided, f'__getitem__: the index is replaced by the result of {", ".join(opaque)}(...), a call the dispatch rules cannot look into '
                 '(helper not expanded): the empty-sequence / conversion-error handling cannot be located')
 
@@ -741,7 +1238,8 @@ def check_arith(ctx):
     sp = fsl.params()[1]
     gms = guard_map(fsl.node)
     unpack = [s for s in fsl.node.body if isinstance(s, ast.Assign) and isinstance(s.targets[0], ast.Tuple)]
-    oku = len(unpack) == 1 and u(unpack[0].value) == f'{sp}.indices(len(self))' and len(unpack[0].targets[0].elts) == 3
+    fls0 = Flow(fsl.node)
+    oku = len(unpack) == 1 and u(fls0.resolve(unpack[0].value, unpack[0])) == f'{sp}.indices(len(self))' and len(unpack[0].targets[0].elts) == 3
     rep.add('X4', fsl.site(unpack[0] if unpack else None), 'slice bounds are normalised by slice.indices(len(self))', oku, expected=f'start, stop, step = {sp}.indices(len(self))', found=[u(x) for x in unpack], stmt='slice normalisation')
     rep.require(oku, 'ConcatenatedSignatureArray._getitem_slice: slice normalisation not found')
     start, stop, step = (u(e) for e in unpack[0].targets[0].elts)
@@ -780,12 +1278,27 @@ def check_arith(ctx):
     # generic paths
     g1 = m.func(f'{IDX}._getitem_slice')
     body = [s for s in g1.node.body if not (isinstance(s, ast.Expr) and isinstance(s.value, ast.Constant))]
-    okg = len(body) == 2 and isinstance(body[0], ast.Assign) and u(body[0].value) == f'{g1.params()[1]}.indices(len(self))' and isinstance(body[1], ast.Return) \
-        and u(body[1].value) == 'self._getitem_int_array(np.arange({}))'.format(', '.join(u(e) for e in body[0].targets[0].elts))
+    fg1 = Flow(g1.node)
+    rets1 = [s for s in stmts_in(g1.node.body) if isinstance(s, ast.Return)]
+    okg = False
+    if len(rets1) == 1 and rets1[0] is g1.node.body[-1] and isinstance(rets1[0].value, ast.Call) and u(rets1[0].value.func) == 'self._getitem_int_array' and len(rets1[0].value.args) == 1:
+        # the positions handed on: np.arange over the three numbers slice.indices(len(self)) yields, in its order
+        pos = fg1.value(rets1[0].value.args[0], rets1[0])
+        want = f'{g1.params()[1]}.indices(len(self))'
+        if isinstance(pos, ast.Call) and u(pos.func) == 'np.arange' and not pos.keywords:
+            if len(pos.args) == 1 and isinstance(pos.args[0], ast.Starred):
+                okg = u(fg1.value(pos.args[0].value, rets1[0])) == want
+            elif len(pos.args) == 3 and all(isinstance(a, ast.Name) for a in pos.args):
+                d = fg1.binder(pos.args[0].id, rets1[0])
+                okg = isinstance(d, ast.Assign) and len(d.targets) == 1 and isinstance(d.targets[0], ast.Tuple) and [u(e) for e in d.targets[0].elts] == [a.id for a in pos.args] \
+                    and all(fg1.binder(a.id, rets1[0]) is d for a in pos.args) and u(fg1.resolve(d.value, d)) == want
     rep.add('X4', g1.site(), 'generic slice = the positions range(*slice.indices(len)) as an index array', okg, expected='self._getitem_int_array(np.arange(start, stop, step))', found=[u(s) for s in body], stmt='generic slice')
     g2 = m.func(f'{IDX}._getitem_bool_array')
     body = [s for s in stmts_in(g2.node.body) if isinstance(s, ast.Return)]
-    rep.add('X4', g2.site(), 'a mask selects the positions of its True entries, ascending (on every path: no special-case return)', len(body) == 1 and u(body[0].value) == f'self._getitem_int_array(np.flatnonzero({g2.params()[1]}))', expected='np.flatnonzero(mask)',
+    fg2 = Flow(g2.node)
+    okm = len(body) == 1 and isinstance(body[0].value, ast.Call) and u(body[0].value.func) == 'self._getitem_int_array' and len(body[0].value.args) == 1 and not body[0].value.keywords \
+        and u(fg2.value(body[0].value.args[0], body[0])) == f'np.flatnonzero({g2.params()[1]})'
+    rep.add('X4', g2.site(), 'a mask selects the positions of its True entries, ascending (on every path: no special-case return)', okm, expected='np.flatnonzero(mask)',
             found=[u(b.value) for b in body], stmt='mask')
     rep.functions.update({g1.qualname, g2.qualname})
     # a selection is a new collection: no handler hands back the receiver itself (mutable collections use the same handlers)
@@ -799,6 +1312,59 @@ def check_arith(ctx):
         rep.add('X4', fi.site(ident[0] if ident else None), f'{fi.cls.node.name}.{fi.name} never returns the collection itself as the selected sub-collection', not ident, expected='a new collection / element',
                 found=[f'return {u(r.value)} under {sorted(path_atoms(guard_map(fi.node)[r]))}' for r in ident] or 'no identity return', stmt=f'{fi.cls.node.name}.{fi.name} identity')
     rep.floor('X4', 'selection handlers', n, 6)
+
+
+def _constructs_cls(m, cls_q, name, _depth=0):
+    """The classmethod `name` of class `cls_q` returns an instance of the class it is called on (cls(...), cls.__new__(cls), or
+    another such classmethod)."""
+    f = m.find_method(cls_q, name)
+    if f is None or _depth > 3 or not any(u(d) == 'classmethod' for d in f.node.decorator_list) or not f.params():
+        return False
+    c = f.params()[0]
+    rets = [r for r in stmts_in(f.node.body) if isinstance(r, ast.Return)]
+    if not rets:
+        return False
+    for r in rets:
+        v = r.value
+        if isinstance(v, ast.Name):
+            ds = [x for x in assigns_to(f.node, v.id)]
+            v = def_value(ds[0]) if len(ds) == 1 else None
+        if not isinstance(v, ast.Call):
+            return False
+        fn_ = v.func
+        if u(fn_) == c or (u(fn_) == f'{c}.__new__' and [u(a) for a in v.args] == [c]):
+            continue
+        if isinstance(fn_, ast.Attribute) and u(fn_.value) == c and _constructs_cls(m, cls_q, fn_.attr, _depth + 1):
+            continue
+        return False
+    return True
+
+
+def _method_loop(m, fia, fla, out_name, out_cls, rep):
+    """Fill loop that lives in a method called on the fresh result: [loop with receiver and arguments substituted] or []."""
+    calls = [s for s in fia.node.body if isinstance(s, ast.Expr) and isinstance(s.value, ast.Call) and isinstance(s.value.func, ast.Attribute)
+             and u(s.value.func.value) == out_name]
+    if len(calls) != 1:
+        return []
+    st, call = calls[0], calls[0].value
+    meth = m.find_method(out_cls, call.func.attr)
+    rep.require(meth is not None, f'_getitem_int_array: `{u(call.func)}` is not a method the analysis can find in {out_cls}')
+    body = [x for x in meth.node.body if not (isinstance(x, ast.Expr) and isinstance(x.value, ast.Constant))]
+    a = meth.node.args
+    plain = not (a.vararg or a.kwarg or a.kwonlyargs or a.defaults or meth.node.decorator_list) and not call.keywords and not any(isinstance(x, ast.Starred) for x in call.args)
+    params = [x.arg for x in a.posonlyargs + a.args]
+    rep.require(plain and len(body) == 1 and isinstance(body[0], ast.For) and len(params) == len(call.args) + 1,
+                f'_getitem_int_array: the result is filled by {meth.qualname}, whose body is not a single loop over its arguments: cannot be evaluated')
+    args = [fla.value(x, st) for x in call.args]
+    stored = {n.id for n in ast.walk(body[0]) if isinstance(n, ast.Name) and isinstance(n.ctx, ast.Store)}
+    free = set()
+    for x in args:
+        free |= _loads(x)
+    rep.require(not stored & (free | {out_name}), f'_getitem_int_array: locals of {meth.qualname} shadow names of the call arguments')
+    mapping = {params[0]: ast.Name(id=out_name, ctx=ast.Load())}
+    mapping.update(dict(zip(params[1:], args)))
+    rep.functions.add(meth.qualname)
+    return [ast.fix_missing_locations(ast.copy_location(_subst_names(body[0], mapping), st))]
 
 
 def check_subcollections(ctx):
@@ -826,6 +1392,15 @@ def check_subcollections(ctx):
         rep.add('X5', fia.site(un[0]), 'slot k of the result is sized for the k-th requested signature', oks, expected=f'[self.sizeof(i) for i in {ip}]', found=u(sizes), stmt='result sizes')
     loops = [s for s in fia.node.body if isinstance(s, ast.For)]
     okl, why = False, None
+    out_cls = None
+    if un and isinstance(un[0].func, ast.Attribute):
+        # the result is built by a constructor classmethod of a known class: its slots are that class's elements
+        q = m.resolve(fia.module, un[0].func.value)
+        out_cls = q if q in m.classes and _constructs_cls(m, q, un[0].func.attr) else None
+    if not loops and out_name is not None and out_cls is not None:
+        # the fill loop may live in a method of the result's class, called once on the fresh result (the copy loop shared with
+        # the constructor): look at the loop it runs, with the receiver and the arguments put in place of its parameters
+        loops = _method_loop(m, fia, fla, out_name, out_cls, rep)
     if len(loops) == 1 and out_name is not None and not loops[0].orelse:
         # Model of the fill loop: in iteration k every loop variable is an expression in k (enumerate / zip / range / direct
         # iteration; e[a:] yields e[a + k]).  Slot k of the result is out[k] = out.values[out.bounds[k] : out.bounds[k + 1]]
@@ -848,6 +1423,12 @@ def check_subcollections(ctx):
             okd = isinstance(dst, ast.Subscript) and ((u(dst.value) == out_name and not isinstance(dst.slice, ast.Slice) and Aff.try_of(dst.slice) == kk)
                                                       or (u(dst.value) == f'{out_name}.values' and isinstance(dst.slice, ast.Slice) and dst.slice.step is None
                                                           and bound_at(dst.slice.lower, 0) and bound_at(dst.slice.upper, 1)))
+            if isinstance(dst, ast.Call) and u(dst.func) == f'{out_name}._getitem_int' and len(dst.args) == 1 and not dst.keywords:
+                # the element hook of the result's class, without the (here redundant) bounds check: it is slot k when that
+                # hook is the X4 element accessor values[bounds[k] : bounds[k + 1]]
+                hook = m.find_method(out_cls, '_getitem_int') if out_cls else None
+                rep.require(hook is not None, f'_getitem_int_array: cannot resolve the class of `{out_name}` to find its _getitem_int')
+                okd = hook.qualname == f'{C}._getitem_int' and Aff.try_of(dst.args[0]) == kk
             oksrc = isinstance(src, ast.Call) and u(src.func) == 'self._getitem_int' and len(src.args) == 1 and not src.keywords and isinstance(src.args[0], ast.Subscript) \
                 and u(src.args[0].value) == ip and not isinstance(src.args[0].slice, ast.Slice) and Aff.try_of(src.args[0].slice) == kk
             # every slot is visited: the loop runs len(indices) times (the result has one slot per index, one more bound)
@@ -886,6 +1467,267 @@ def check_subcollections(ctx):
     p = ff.params()
     rep.add('X5', ff.site(), 'from_arrays stores values, bounds and kmerspec as given', sets == {'self.values': p[1], 'self.bounds': p[2], 'self.kmerspec': p[3]}, expected='self.values/bounds/kmerspec', found=sets, stmt='from_arrays')
     rep.functions.update({fli.qualname, fa.qualname, ff.qualname})
+    # construction arithmetic (X8): every sub-collection built above goes through it (C05 / C12 re-evaluate it with this function)
+    check_construction(ctx)
+
+
+def _ct(txt, sc):
+    """Canonical text of an expected expression in situation `sc`."""
+    return u(_canon_term(ast.parse(txt, mode='eval').body, sc))
+
+
+def _sc_text(sc):
+    def one(k, v):
+        if k[0] == 'none':
+            return f'{k[1]} is {"" if v else "not "}None'
+        if k[0] == 'isinstance':
+            return f'{"" if v else "not "}isinstance({k[1]}, {k[2]})'
+        if k[0] == 'truthy':
+            return f'{k[1]} {"non-empty" if v else "empty"}'
+        return f'{"" if v else "not "}{k}'
+    return ', '.join(one(k, v) for k, v in sorted(sc.items(), key=str)) or 'always'
+
+
+def _judge(rep, fi, keys, spec, consts=None, consistent=None, rule='X8'):
+    """Run the function in every situation (truth values of `keys`) and compare with spec(sc, sx) -> [(aspect, description,
+    ok, expected, found)]; one obligation per aspect, violated when some situation deviates."""
+    rep.functions.add(fi.qualname)
+    raw = sx_paths(fi, consts)
+    # a type test whose "class" is one of the function's own arguments has its operands the wrong way round
+    crossed = sorted({k for sc, _ in raw for k in sc if k[0] == 'isinstance' and k not in keys and k[2] in fi.params()})
+    if crossed:
+        rep.add(rule, fi.site(), 'type tests are made on the argument, against a class', False, expected='isinstance(<argument>, <class>)', found=[f'isinstance({k[1]}, {k[2]})' for k in crossed],
+                stmt=f'{fi.cls.node.name if fi.cls else ""}.{fi.name} type test')
+        return {}
+    paths = sx_complete(raw, keys, fi)
+    agg = {}
+    for sc, sx in paths:
+        if consistent is not None and not consistent(sc):
+            continue
+        for aspect, desc, ok, exp, found in spec(sc, sx):
+            a = agg.setdefault(aspect, dict(desc=desc, ok=True, exp=exp, found=None, n=0))
+            a['n'] += 1
+            if not ok and a['ok']:
+                a.update(ok=False, exp=exp, found=f'{found}   [when {_sc_text(sc)}]')
+    for aspect, a in agg.items():
+        rep.add(rule, fi.site(), a['desc'], a['ok'], expected=a['exp'], found=a['found'] if not a['ok'] else f'holds in all {a["n"]} situations', stmt=f'{fi.cls.node.name if fi.cls else ""}.{fi.name} {aspect}')
+    return agg
+
+
+def _outcome_plain(sx):
+    return sx.outcome[0] in ('fall',) or (sx.outcome[0] == 'return' and (sx.outcome[1] is None or is_none(sx.outcome[1])))
+
+
+def _copy_loop(sx, lp, sc, dst_obj, src_seq, elem_q, m, cls_q):
+    """The loop copies, for every k < len(src_seq), element k of `src_seq` into slot k of `dst_obj` (np.copyto(dst_obj[k], src_seq[k]))."""
+    mapping = {}
+    if not _bind_target(lp.target, _element(lp.iter), mapping):
+        return False, 'loop target does not fit what the iterable yields'
+    cps = [c for c in calls_in(lp) if u(c.func) == 'np.copyto']
+    st = [x for x in lp.body if isinstance(x, ast.Expr) and cps and x.value is cps[0]]
+    if len(cps) != 1 or not st or len(cps[0].args) < 2 or any(isinstance(x, (ast.Continue, ast.Break)) for x in ast.walk(lp)):
+        return False, 'no single unconditional np.copyto in the loop'
+    dst = _subst_names(cps[0].args[0], mapping)
+    src = _subst_names(cps[0].args[1], mapping)
+    kk = sym(K)
+
+    def bound_at(e, off):
+        return isinstance(e, ast.Subscript) and u(e.value) == f'{dst_obj}.bounds' and not isinstance(e.slice, ast.Slice) and Aff.try_of(e.slice) == kk.plus(off)
+    okd = isinstance(dst, ast.Subscript) and ((u(dst.value) == dst_obj and not isinstance(dst.slice, ast.Slice) and Aff.try_of(dst.slice) == kk)
+                                              or (u(dst.value) == f'{dst_obj}.values' and isinstance(dst.slice, ast.Slice) and dst.slice.step is None
+                                                  and bound_at(dst.slice.lower, 0) and bound_at(dst.slice.upper, 1)))
+    if isinstance(dst, ast.Call) and u(dst.func) == f'{dst_obj}._getitem_int' and len(dst.args) == 1 and not dst.keywords:
+        hook = m.find_method(cls_q, '_getitem_int')
+        okd = hook is not None and hook.qualname == elem_q and Aff.try_of(dst.args[0]) == kk
+    oks = isinstance(src, ast.Subscript) and u(src.value) == src_seq and not isinstance(src.slice, ast.Slice) and Aff.try_of(src.slice) == kk
+    n = sym('n')
+    cnt = _length(lp.iter, {f'len({src_seq})': n, f'len({dst_obj})': n, f'len({dst_obj}.bounds)': n.plus(1)})
+    if okd and oks and cnt is None:
+        raise Undecided(f'{sx.what}: cannot determine how many times the copy loop `for ... in {u(lp.iter)[:50]}` runs')
+    return okd and oks and cnt == n, dict(slot=u(dst), value=u(src), iterations=str(cnt))
+
+
+def check_construction(ctx):
+    """X8: the construction arithmetic every sub-collection and every loaded / converted collection goes through."""
+    rep, m = ctx.rep, ctx.model
+    rep.rules.setdefault('X8', 'construction: bounds = [0, cumsum(lengths)], values sized by the last bound; constructors store / copy what they are given, slot i <- signature i; '
+                         'defaults (kmerspec, dtype, ids, meta) decided per situation by path-by-path evaluation')
+    SA = f'{BASE}.SignatureArray'
+    C = f'{BASE}.ConcatenatedSignatureArray'
+    consts = module_constants(m.module(BASE))
+
+    # ---- _uninit_arrays: the arithmetic
+    fu = m.func(f'{SA}._uninit_arrays')
+    rep.functions.add(fu.qualname)
+    cp, lp_, dp = fu.params()[:3]
+    paths = sx_complete(sx_paths(fu, consts), [], fu)
+    rep.require(len(paths) == 1, '_uninit_arrays: expected straight-line code')
+    sx = paths[0][1]
+    nlen = sym(f'len({lp_})')
+    alloc = [k for k, c in enumerate(sx.calls) if u(c.func) in ('np.zeros', 'np.empty') and c.args and Aff.try_of(sx.expand(c.args[0])) is not None
+             and Aff.try_of(sx.expand(c.args[0])).sub(nlen).is_const()]
+    ret = sx.outcome[1] if sx.outcome[0] == 'return' else None
+    rep.require(isinstance(ret, ast.Tuple) and len(ret.elts) == 2 and all(isinstance(e, ast.Name) and e.id.startswith('@') for e in ret.elts),
+                '_uninit_arrays: does not return a pair of freshly created arrays (values, bounds): construction cannot be evaluated')
+    vref, bref = (int(e.id[1:]) for e in ret.elts)
+    swapped = bref not in alloc and vref in alloc
+    rep.add('X8', fu.site(), '_uninit_arrays returns the pair (values, bounds) in that order', not swapped, expected='(values, bounds)', found=u(sx.expand(ret))[:120], stmt='_uninit_arrays result order')
+    if swapped:
+        vref, bref = bref, vref         # judge the content of what is the bounds array all the same
+    rep.require(bref in alloc, f'_uninit_arrays: the bounds array returned is `{u(sx.expand(ret.elts[1]))[:70]}`, not an array allocated with a length derived from len({lp_}): its content cannot be evaluated')
+    bc = sx.calls[bref]
+    btxt = f'@{bref}'
+    okl = Aff.try_of(sx.expand(bc.args[0])) == nlen.plus(1)
+    okt = u(get_arg(bc, 1, 'dtype')) == 'BOUNDS_DTYPE'
+    rep.add('X8', fu.site(), 'the bounds array has one entry more than there are signatures, of the bounds dtype', okl and okt, expected=f'len({lp_}) + 1 entries, dtype=BOUNDS_DTYPE', found=u(sx.expand(_call_ref(bref))), stmt='_uninit_arrays bounds allocation')
+    # content: events on the bounds array in order
+    zero0 = u(bc.func) == 'np.zeros'
+    tail, tail_pos, others = None, None, []
+    for pos, e in enumerate(sx.effects):
+        if e[0] == 'setitem' and u(e[1].value) == btxt:
+            sl = e[1].slice
+            if not isinstance(sl, ast.Slice) and Aff.try_of(sl) == Aff(const=0):
+                zero0 = is_const(e[2], 0)
+            elif isinstance(e[2], ast.Name) and e[2].id.startswith('@') and u(sx.calls[int(e[2].id[1:])].func) == 'np.cumsum':
+                tail, tail_pos = (sl, sx.calls[int(e[2].id[1:])]), pos
+            else:
+                others.append(f'{u(sx.expand(e[1]))} = {u(sx.expand(e[2]))}')
+        elif e[0] == 'call' and u(sx.calls[e[1]].func) == 'np.cumsum':
+            o = get_kw(sx.calls[e[1]], 'out')
+            if o is not None and isinstance(o, ast.Subscript) and u(o.value) == btxt:
+                tail, tail_pos = (o.slice, sx.calls[e[1]]), pos
+    rep.add('X8', fu.site(), 'bounds[0] is 0', zero0 and not others, expected='np.zeros(...) or bounds[0] = 0', found=(u(bc.func), others), stmt='_uninit_arrays first bound')
+    okc = tail is not None and isinstance(tail[0], ast.Slice) and tail[0].step is None and tail[0].upper is None and Aff.try_of(tail[0].lower) == Aff(const=1) \
+        and tail[1].args and u(sx.expand(tail[1].args[0])) == lp_ and get_kw(tail[1], 'axis') is None
+    rep.add('X8', fu.site(), 'bounds[1:] is the running total of the lengths (signature i occupies values[bounds[i] : bounds[i + 1]])', okc, expected=f'bounds[1:] = cumsum({lp_})',
+            found=None if tail is None else (u(sx.expand(tail[1])), 'into [' + u(tail[0]) + ']'), stmt='_uninit_arrays running total')
+    vc = sx.calls[vref]
+    size = sx.expand(vc.args[0]) if vc.args else None
+    vpos = next((pos for pos, e in enumerate(sx.effects) if e[0] == 'call' and e[1] == vref), -1)
+    oksz = isinstance(vc.args[0] if vc.args else None, ast.Subscript) and u(vc.args[0].value) == btxt and not isinstance(vc.args[0].slice, ast.Slice) \
+        and (Aff.try_of(sx.expand(vc.args[0].slice)) in (Aff(const=-1), nlen))
+    okv = u(vc.func) in ('np.empty', 'np.zeros') and oksz and u(get_arg(vc, 1, 'dtype')) == dp and tail_pos is not None and vpos > tail_pos
+    rep.add('X8', fu.site(), 'the values array holds exactly the total length (the last bound, read after the running total is written) in the requested dtype', okv,
+            expected=f'np.empty(bounds[-1], dtype={dp}) after the cumsum', found=(u(sx.expand(_call_ref(vref))), f'effect #{vpos} vs cumsum #{tail_pos}'), stmt='_uninit_arrays values allocation')
+
+    # ---- from_arrays / uninitialized
+    ff = m.func(f'{SA}.from_arrays')
+    c0, v0, b0, k0 = ff.params()[:4]
+
+    def spec_from(sc, sx):
+        news = [k for k, c in enumerate(sx.calls) if u(c) in (f'{c0}.__new__({c0})', f'object.__new__({c0})', f'super().__new__({c0})')]
+        tops = sx.top_effects()
+        want = f'@{news[0]}._init_from_arrays({v0}, {b0}, {k0})' if news else None
+        ok = len(news) == 1 and [u(sx.calls[e[1]]) if e[0] == 'call' else e[0] for e in tops] == [want] and sx.outcome[0] == 'return' and u(sx.outcome[1]) == f'@{news[0]}'
+        return [('initialisation', 'from_arrays creates one new instance, initialises it with (values, bounds, kmerspec) in that order and returns it', ok,
+                 f'sa = {c0}.__new__({c0}); sa._init_from_arrays({v0}, {b0}, {k0}); return sa', ([sx.text(sx.calls[e[1]]) if e[0] == 'call' else e[0] for e in tops], sx.text(sx.outcome[1]) if sx.outcome[1] is not None else sx.outcome[0]))]
+    _judge(rep, ff, [], spec_from, consts)
+
+    fn_ = m.func(f'{SA}.uninitialized')
+    c1, l1, k1, d1 = fn_.params()[:4]
+
+    def spec_uninit(sc, sx):
+        dt = f'{k1}.index_dtype' if sc[('none', d1)] else d1
+        r = f'{c1}._uninit_arrays({l1}, {dt})'
+        want = _ct(f'{c1}.from_arrays({r}[0], {r}[1], {k1})', sc)
+        got = sx.text(sx.outcome[1], sc) if sx.outcome[0] == 'return' and sx.outcome[1] is not None else sx.outcome[0]
+        tops = sx.top_effects()
+        return [('construction', 'uninitialized allocates for the given lengths in the given dtype (default: the index dtype of the k-mer spec) and wraps (values, bounds, kmerspec) in that order', got == want and not tops,
+                 want, (got, [e[0] for e in tops]))]
+    _judge(rep, fn_, [('none', d1)], spec_uninit, consts)
+
+    # ---- SignatureArray.__init__
+    fi = m.func(f'{SA}.__init__')
+    s2, k2, d2 = fi.params()[1:4]
+    kA, kS = ('isinstance', s2, 'AbstractSignatureArray'), ('isinstance', s2, 'SignatureArray')
+
+    def spec_sa(sc, sx):
+        kk = f'{s2}.kmerspec' if sc[('none', k2)] and sc[kA] else k2
+        tops = sx.top_effects()
+        calls = [sx.text(sx.calls[e[1]], sc) for e in tops if e[0] == 'call']
+        loops = [e[1] for e in tops if e[0] == 'loop']
+        rest = [e[0] for e in tops if e[0] not in ('call', 'loop')]
+        out = []
+        if sc[kS]:
+            vv = f'{s2}.values.copy()' if sc[('none', d2)] else f'{s2}.values.astype({d2})'
+            want = _ct(f'self._init_from_arrays({vv}, {s2}.bounds.copy(), {kk})', sc)
+            out.append(('copy', 'constructed from a SignatureArray: values (converted when a dtype is given) and bounds are copied, k-mer parameters kept', calls == [want] and not loops and not rest and _outcome_plain(sx),
+                        want, (calls, len(loops), rest, sx.outcome[0])))
+        else:
+            dt = d2 if not sc[('none', d2)] else (f'{s2}[0].dtype' if sc[('truthy', s2)] else f'{kk}.index_dtype')
+            r = f'self._uninit_arrays(list(map(len, {s2})), {dt})'
+            want = _ct(f'self._init_from_arrays({r}[0], {r}[1], {kk})', sc)
+            out.append(('allocation', 'constructed from a sequence: arrays are allocated for the length of each signature in order, in the given / first-signature / default dtype, and installed as (values, bounds, kmerspec)',
+                        calls == [want] and not rest and _outcome_plain(sx), want, (calls, rest, sx.outcome[0])))
+            okl, why = False, f'{len(loops)} loops'
+            if len(loops) == 1:
+                pos_l = next(p_ for p_, e in enumerate(sx.effects) if e[0] == 'loop')
+                pos_c = max([p_ for p_, e in enumerate(sx.effects) if e[0] == 'call'] or [-1])
+                okl, why = _copy_loop(sx, loops[0], sc, 'self', s2, f'{C}._getitem_int', m, SA)
+                okl = okl and pos_l > pos_c
+            out.append(('fill', 'constructed from a sequence: signature i is copied into slot i, after the arrays are installed', okl, f'for i, sig in enumerate({s2}): np.copyto(self[i], sig)', why))
+        return out
+    _judge(rep, fi, [('none', k2), kA, kS, ('none', d2), ('truthy', s2)], spec_sa, consts, consistent=lambda sc: not (sc[kS] and not sc[kA]))
+
+    # ---- SignatureList.__init__
+    fl_ = m.func(f'{BASE}.SignatureList.__init__')
+    s3, k3, d3 = fl_.params()[1:4]
+    kA3, kE3 = ('isinstance', s3, 'AbstractSignatureArray'), ('truthy', f'list({s3})')
+
+    def spec_sl(sc, sx):
+        stores = {e[1]: sx.text(e[2], sc) for e in sx.effects if e[0] == 'store'}
+        kk = _ct(f'{s3}.kmerspec' if sc[('none', k3)] and sc[kA3] else k3, sc)
+        dt = d3 if not sc[('none', d3)] else f'{s3}.dtype' if sc[kA3] else f'list({s3})[0].dtype' if sc[kE3] else f'{kk}.index_dtype'
+        dt = _ct(dt, sc)
+        tops = [e[0] for e in sx.top_effects() if e[0] != 'store']
+        return [('list', 'the signatures are stored as a list in the given order', stores.get('self._list') == f'list({s3})' and not tops and _outcome_plain(sx), f'self._list = list({s3})', (stores.get('self._list'), tops, sx.outcome[0])),
+                ('kmerspec', 'k-mer parameters: the given ones, else those of the source collection', stores.get('self.kmerspec') == kk, kk, stores.get('self.kmerspec')),
+                ('dtype', 'dtype: the given one, else that of the source collection, else that of the first signature, else the index dtype of the k-mer spec', stores.get('self.dtype') == dt, dt, stores.get('self.dtype')),
+                ('attributes', 'no other attribute is set', set(stores) <= {'self._list', 'self.kmerspec', 'self.dtype'}, '_list, kmerspec, dtype', sorted(stores))]
+    _judge(rep, fl_, [('none', k3), kA3, ('none', d3), kE3], spec_sl, consts)
+
+    # ---- AnnotatedSignatures.__init__
+    fa = m.func(f'{BASE}.AnnotatedSignatures.__init__')
+    s4, i4, m4 = fa.params()[1:4]
+    kq = ('eq', *sorted([f'len({i4})', f'len({s4})']))
+
+    def spec_an(sc, sx):
+        stores = {e[1]: sx.text(e[2], sc) for e in sx.effects if e[0] == 'store'}
+        out = [('ids length read', 'the number of ids is only looked at when ids are given', not (sc[('none', i4)] and kq in sx.read), 'len(ids) not evaluated for ids=None', 'len(ids) evaluated')]
+        if not sc[('none', i4)] and not sc[kq]:
+            out.append(('ids count', 'a wrong number of ids is rejected', sx.outcome == ('raise', 'ValueError'), 'raise ValueError', sx.outcome[0] if sx.outcome[0] != 'raise' else sx.outcome))
+            return out
+        wi = _ct(f'range(len({s4}))' if sc[('none', i4)] else i4, sc)
+        wm = _ct('SignaturesMeta()' if sc[('none', m4)] else m4, sc)
+        tops = [e[0] for e in sx.top_effects() if e[0] != 'store']
+        out.append(('ids', 'ids default to consecutive integers from zero, one per signature; given ids are kept', stores.get('self.ids') == wi and _outcome_plain(sx) and not tops, wi, (stores.get('self.ids'), sx.outcome[0], tops)))
+        out.append(('meta', 'metadata defaults to an empty SignaturesMeta; given metadata is kept', stores.get('self.meta') == wm, wm, stores.get('self.meta')))
+        out.append(('signatures', 'the wrapped collection is the one given', stores.get('self.signatures') == s4, s4, stores.get('self.signatures')))
+        return out
+    _judge(rep, fa, [('none', i4), ('none', m4), kq], spec_an, consts, consistent=None)
+
+    # ---- sizes(): the size of every signature, in order
+    fz = m.func(f'{BASE}.AbstractSignatureArray.sizes')
+    rep.functions.add(fz.qualname)
+    rz = [r for r in stmts_in(fz.node.body) if isinstance(r, ast.Return)]
+    okz, foundz = False, [u(r.value) for r in rz]
+    if len(rz) == 1 and isinstance(rz[0].value, ast.Call) and rz[0].value.args:
+        flz = Flow(fz.node)
+        src = flz.value(rz[0].value.args[0], rz[0]) if u(rz[0].value.func) in ('np.fromiter', 'np.array', 'np.asarray', 'list') else flz.value(rz[0].value, rz[0])
+        if isinstance(src, (ast.ListComp, ast.GeneratorExp)) and len(src.generators) == 1 and not src.generators[0].ifs:
+            mp = {}
+            el = _subst_names(src.elt, mp) if _bind_target(src.generators[0].target, _element(src.generators[0].iter), mp) else None
+            it = src.generators[0].iter
+        else:
+            el, it = _element(src), src
+        cnt = _length(it, {'len(self)': sym('n')})
+        okz = el is not None and u(el) in (f'self.sizeof({K})', f'len(self[{K}])') and cnt == sym('n')
+        foundz = (u(el), str(cnt))
+    rep.add('X8', fz.site(), 'sizes() lists sizeof(i) for every position i in order', okz, expected='self.sizeof(k) for k = 0 .. len(self) - 1', found=foundz, stmt='sizes')
+    fzc = m.func(f'{C}.sizes')
+    rep.functions.add(fzc.qualname)
+    rzc = [r for r in stmts_in(fzc.node.body) if isinstance(r, ast.Return)]
+    rep.add('X8', fzc.site(), 'concatenated collections: sizes are the differences of consecutive bounds', len(rzc) == 1 and u(rzc[0].value) == 'np.diff(self.bounds)', expected='np.diff(self.bounds)', found=[u(r.value) for r in rzc], stmt='concatenated sizes')
 
 
 def check_mutators(ctx):
@@ -948,6 +1790,8 @@ def _expr_conjuncts(v):
             c = _forall(g.generators[0].target, g.generators[0].iter, g.elt, True)
             return None if c is None else [c]
         return None
+    if isinstance(v, ast.BoolOp) and isinstance(v.op, ast.Or):
+        return [('cond', {('either', u(v))})]        # a disjunction: evaluable, and not a conjunct the rule asks for
     a = atoms(v, True)
     return None if a is None else [('cond', a)]
 
@@ -983,17 +1827,32 @@ def check_equality(ctx):
     fe = m.func(f'{BASE}.AbstractSignatureArray.__eq__')
     rep.functions.add(fe.qualname)
     op = fe.params()[1]
-    gm = guard_map(fe.node)
-    rets = [s for s in stmts_in(fe.node.body) if isinstance(s, ast.Return)]
-    eqr = [r for r in rets if any(a[0] == 'true' and a[1].startswith(f'isinstance({op}') for a in path_atoms(gm[r]))]
-    oke = False
-    if len(eqr) == 1 and isinstance(eqr[0].value, ast.BoolOp) and isinstance(eqr[0].value.op, ast.And):
-        parts = {u(v) for v in eqr[0].value.values}
-        oke = parts == {f'self.kmerspec == {op}.kmerspec', f'sigarray_eq(self, {op})'} or parts == {f'{op}.kmerspec == self.kmerspec', f'sigarray_eq(self, {op})'}
-    rep.add('X7', fe.site(eqr[0] if eqr else None), 'collections are equal exactly when k-mer parameters and all signatures are equal', oke, expected=f'self.kmerspec == {op}.kmerspec and sigarray_eq(self, {op})',
-            found=[u(r.value) for r in eqr], stmt='equality')
-    ni = [r for r in rets if r not in eqr]
-    rep.add('X7', fe.site(ni[0] if ni else None), 'comparison with anything else is NotImplemented', len(ni) == 1 and u(ni[0].value) == 'NotImplemented', expected='NotImplemented', found=[u(r.value) for r in ni], stmt='not implemented')
+    # judged path by path: what is returned when `other` is a signature collection, and when it is not (if/else, guard clause,
+    # conditional expression, k-mer parameters compared in a separate guard: all the same to the rule)
+    kI = ('isinstance', op, 'AbstractSignatureArray')
+    kK = ('eq', *sorted([f'self.kmerspec', f'{op}.kmerspec']))
+
+    def spec_eq(sc, sx):
+        ret = sx.outcome[1] if sx.outcome[0] == 'return' else None
+        got = sx.text(ret, sc) if ret is not None else sx.outcome[0]
+        if not sc[kI]:
+            return [('not implemented', 'comparison with anything else is NotImplemented', got == 'NotImplemented', 'NotImplemented', got)]
+        if kK in sx.read and not sc[kK]:
+            return [('equality', 'collections are equal exactly when k-mer parameters and all signatures are equal', got == 'False', 'False for different k-mer parameters', got)]
+        parts = list(sx.expand(ret).values) if isinstance(ret, ast.BoolOp) and isinstance(ret.op, ast.And) else ([sx.expand(ret)] if ret is not None else [])
+        seen = {'kmerspec'} if kK in sx.read else set()
+        okp = True
+        for part in parts:
+            a = atoms(part, True)
+            if a == {kK}:
+                seen.add('kmerspec')
+            elif u(part) in (f'sigarray_eq(self, {op})', f'sigarray_eq({op}, self)'):
+                seen.add('signatures')
+            else:
+                okp = False
+        return [('equality', 'collections are equal exactly when k-mer parameters and all signatures are equal', okp and seen == {'kmerspec', 'signatures'} and not sx.top_effects(),
+                 f'self.kmerspec == {op}.kmerspec and sigarray_eq(self, {op})', got)]
+    _judge(rep, fe, [kI, kK], spec_eq, rule='X7')
     fs = m.func(f'{BASE}.sigarray_eq')
     rep.functions.add(fs.qualname)
     a1, a2 = fs.params()[:2]
@@ -1021,6 +1880,8 @@ def check(ctx):
     rep.rule('X5', 'sub-collections keep kmerspec and dtype; selection order preserved')
     rep.rule('X6', 'SignatureList mutators delegate to the list; no other class mutates')
     rep.rule('X7', 'equality = kmerspec equal and sigarray_eq; KmerSpec compares (k, prefix)')
+    rep.rule('X8', 'construction: bounds = [0, cumsum(lengths)] of BOUNDS_DTYPE, values sized by the last bound; from_arrays / uninitialized / constructors hand (values, bounds, kmerspec) on in order; '
+             'slot i <- signature i; defaults (kmerspec, dtype, ids, meta) decided per situation by path-by-path symbolic evaluation')
     rep.trusted += ['slice.indices, np.arange, np.flatnonzero, np.array_equal', 'np.asarray returns a view for array.array / memoryview / __array__ providers; ndarray.copy() is fresh']
     check_dispatch(ctx)
     check_alias(ctx)
@@ -1047,6 +1908,32 @@ _CONVERT = ("\t\t# Otherwise assume sequence of ints or bools, use Numpy to figu
 _LAST_RAISE = "\t\telse:\n\t\t\traise IndexError('Index arrays must have integer or boolean data type.')\n"
 _HELPER = ("\n\ndef _to_index_array(index):\n\tif isinstance(index, np.ndarray):\n\t\treturn index\n\tif len(index) == 0:\n\t\treturn np.empty(0, dtype=int)\n"
            "\ttry:\n\t\treturn np.asarray(index)\n\texcept Exception as e:\n\t\traise IndexError('Indices must be integers, slices, or integer or boolean sequences.') from e\n")
+_SLICE_BRANCH = _SLICE_LOOP + "\n\t\t\tif index.step == 0:\n\t\t\t\traise ValueError('Slice step cannot be zero')\n\n\t\t\treturn self._getitem_slice(index)\n"
+_SLICE_HELPER = ("\n\ndef _checked_slice(index):\n\tif not all(i is None or isinstance(i, (int, np.integer)) for i in (index.start, index.stop, index.step)):\n\t\traise TypeError('Slice indices must be integers or None')\n"
+                 "\tif index.step == 0:\n\t\traise ValueError('Slice step cannot be zero')\n\treturn index\n")
+_ELEM_LOOP = "\t\t\tfor i in index:\n\t\t\t\tself._check_index(i)\n"
+_BOUNDS_HELPER = ("\n\ndef _all_in_bounds(index, seq):\n\tif type(index) is not np.ndarray or index.dtype != np.intp:\n\t\treturn False\n\tif index.size == 0:\n\t\treturn True\n"
+                  "\tn = len(seq)\n\treturn -n <= int(index.min()) and int(index.max()) < n\n")
+_INIT_FILL = "\t\t\tfor i, sig in enumerate(signatures):\n\t\t\t\tnp.copyto(self[i], sig, casting='unsafe')\n"
+_INIT_FROM = "\t\tself.values = values\n\t\tself.bounds = bounds\n\t\tself.kmerspec = kmerspec\n"
+_FILL_METHOD = "\n\tdef _fill(self, signatures):\n\t\tfor i, sig in enumerate(signatures):\n\t\t\tnp.copyto(self[i], sig, casting='unsafe')\n"
+_UNINIT = ("\t\tbounds = np.zeros(len(lengths) + 1, dtype=BOUNDS_DTYPE)\n\t\tnp.cumsum(lengths, dtype=BOUNDS_DTYPE, out=bounds[1:])\n\t\tvalues = np.empty(bounds[-1], dtype=dtype)\n\t\treturn values, bounds\n")
+_SA_INIT_BODY = ("\t\tif isinstance(signatures, SignatureArray):\n\t\t\t# Can just copy arrays directly\n\t\t\tif dtype is None:\n\t\t\t\tvalues = signatures.values.copy()\n\t\t\telse:\n\t\t\t\tvalues = signatures.values.astype(dtype)\n"
+                 "\t\t\tbounds = signatures.bounds.copy()\n\n\t\t\tself._init_from_arrays(values, bounds, kmerspec)\n\n\t\telse:\n\t\t\t# Prepare with uninitialized values array\n\t\t\tif dtype is None:\n"
+                 "\t\t\t\t# Get dtype from first signature\n\t\t\t\tdtype = signatures[0].dtype if signatures else kmerspec.index_dtype\n\n\t\t\tlengths = list(map(len, signatures))\n"
+                 "\t\t\tvalues, bounds = self._uninit_arrays(lengths, dtype)\n\t\t\tself._init_from_arrays(values, bounds, kmerspec)\n\n\t\t\t# Copy signatures to values array\n" + _INIT_FILL)
+_SA_INIT_ALT = ("\t\tif isinstance(signatures, SignatureArray):\n\t\t\tvalues = signatures.values.copy() if dtype is None else signatures.values.astype(dtype)\n\t\t\tself._init_from_arrays(values, signatures.bounds.copy(), kmerspec)\n\t\t\treturn\n\n"
+                "\t\tif dtype is None:\n\t\t\tif signatures:\n\t\t\t\tdtype = signatures[0].dtype\n\t\t\telse:\n\t\t\t\tdtype = kmerspec.index_dtype\n\n\t\tlengths = [len(sig) for sig in signatures]\n"
+                "\t\tvalues, bounds = self._uninit_arrays(lengths, dtype)\n\t\tself._init_from_arrays(values, bounds, kmerspec)\n\t\tfor i, sig in enumerate(signatures):\n\t\t\tnp.copyto(self[i], sig, casting='unsafe')\n")
+_SL_INIT_BODY = ("\t\tif kmerspec is None and isinstance(signatures, AbstractSignatureArray):\n\t\t\tself.kmerspec = signatures.kmerspec\n\t\telse:\n\t\t\tself.kmerspec = kmerspec\n\n"
+                 "\t\tif dtype is not None:\n\t\t\tself.dtype = dtype\n\t\telif isinstance(signatures, AbstractSignatureArray):\n\t\t\tself.dtype = signatures.dtype\n\t\telif len(self._list) > 0:\n"
+                 "\t\t\tself.dtype = self._list[0].dtype\n\t\telse:\n\t\t\tself.dtype = self.kmerspec.index_dtype\n")
+_SL_INIT_ALT = ("\t\tfrom_sigarray = isinstance(signatures, AbstractSignatureArray)\n\n\t\tif kmerspec is None and from_sigarray:\n\t\t\tkmerspec = signatures.kmerspec\n\t\tself.kmerspec = kmerspec\n\n"
+                "\t\tif dtype is None:\n\t\t\tif from_sigarray:\n\t\t\t\tdtype = signatures.dtype\n\t\t\telif self._list:\n\t\t\t\tdtype = self._list[0].dtype\n\t\t\telse:\n\t\t\t\tdtype = self.kmerspec.index_dtype\n\t\tself.dtype = dtype\n")
+_AN_INIT_BODY = ("\t\tif ids is None:\n\t\t\tids = range(len(signatures))\n\t\telif len(ids) != len(signatures):\n\t\t\traise ValueError('Number of ids does not match number of signatures')\n\n"
+                 "\t\tif meta is None:\n\t\t\tmeta = SignaturesMeta()\n\n\t\tself.signatures = signatures\n\t\tself.ids = ids\n\t\tself.meta = meta\n")
+_AN_INIT_ALT = ("\t\tn = len(signatures)\n\n\t\tif ids is not None and len(ids) != n:\n\t\t\traise ValueError('Number of ids does not match number of signatures')\n\n"
+                "\t\tself.signatures = signatures\n\t\tself.ids = range(n) if ids is None else ids\n\t\tself.meta = SignaturesMeta() if meta is None else meta\n")
 _SLICE_FAST = "\t\tvalues = self.values[self.bounds[start]:self.bounds[stop]]\n\t\tbounds = self.bounds[start:(stop + 1)] - self.bounds[start]\n"
 _FILL = "\t\tfor i, idx in enumerate(indices):\n\t\t\tnp.copyto(out[i], self._getitem_int(idx), casting='unsafe')\n"
 _SIGEQ = "\treturn len(a1) == len(a2) and all(map(np.array_equal, a1, a2))"
@@ -1152,5 +2039,88 @@ VARIANTS = [
       "\t\tif not isinstance(other, AbstractSignatureArray):\n\t\t\treturn NotImplemented\n\n\t\treturn self.kmerspec == other.kmerspec and sigarray_eq(self, other)\n"),
     V('guard-clause __eq__ drops the kmerspec comparison', 'B', _B, _EQ,
       "\t\tif not isinstance(other, AbstractSignatureArray):\n\t\t\treturn NotImplemented\n\n\t\treturn sigarray_eq(self, other)\n", 'X7'),
+    # ---- second pass: idioms of the held-out corpus, each with its broken twin
+    V('E: the integer types tuple gets a module-level name', 'E', _I, "(int, np.integer)", "_INT_TYPES", count=2, also=[(_I, "import numpy as np\n", "import numpy as np\n\n_INT_TYPES = (int, np.integer)\n")]),
+    V('named integer types tuple forgets the NumPy integers', 'B', _I, "(int, np.integer)", "_INT_TYPES", 'X1', count=2, also=[(_I, "import numpy as np\n", "import numpy as np\n\n_INT_TYPES = (int,)\n")]),
+    V('E: slice validated by a module-level helper that hands the slice back', 'E', _I, _SLICE_BRANCH, "\t\t\treturn self._getitem_slice(_checked_slice(index))\n", also=[(_I, _LAST_RAISE, _LAST_RAISE + _SLICE_HELPER)]),
+    V('slice helper hands back a slice without the step', 'B', _I, _SLICE_BRANCH, "\t\t\treturn self._getitem_slice(_checked_slice(index))\n", 'X1',
+      also=[(_I, _LAST_RAISE, _LAST_RAISE + _SLICE_HELPER.replace("\treturn index\n", "\treturn slice(index.start, index.stop)\n"))]),
+    V('slice helper forgets the zero-step test', 'B', _I, _SLICE_BRANCH, "\t\t\treturn self._getitem_slice(_checked_slice(index))\n", 'X1',
+      also=[(_I, _LAST_RAISE, _LAST_RAISE + _SLICE_HELPER.replace("\tif index.step == 0:\n\t\traise ValueError('Slice step cannot be zero')\n", ""))]),
+    V('E: array-wide bounds test before the per-element loop', 'E', _I, _ELEM_LOOP,
+      "\t\t\tn = len(self)\n\t\t\tif not (index.size == 0 or (-n <= index.min() and index.max() < n)):\n\t\t\t\tfor i in index:\n\t\t\t\t\tself._check_index(i)\n"),
+    V('E: array-wide bounds test in a helper returning a flag', 'E', _I, _ELEM_LOOP, "\t\t\tif not _all_in_bounds(index, self):\n\t\t\t\tfor i in index:\n\t\t\t\t\tself._check_index(i)\n",
+      also=[(_I, _LAST_RAISE, _LAST_RAISE + _BOUNDS_HELPER)]),
+    V('array-wide bounds test accepts max == len', 'B', _I, _ELEM_LOOP,
+      "\t\t\tn = len(self)\n\t\t\tif not (index.size == 0 or (-n <= index.min() and index.max() <= n)):\n\t\t\t\tfor i in index:\n\t\t\t\t\tself._check_index(i)\n", 'X1'),
+    V('bounds helper forgets the lower bound', 'B', _I, _ELEM_LOOP, "\t\t\tif not _all_in_bounds(index, self):\n\t\t\t\tfor i in index:\n\t\t\t\t\tself._check_index(i)\n", 'X1',
+      also=[(_I, _LAST_RAISE, _LAST_RAISE + _BOUNDS_HELPER.replace("-n <= int(index.min()) and ", ""))]),
+    V('per-element loop skipped for every native-int array', 'B', _I, _ELEM_LOOP, "\t\t\tif index.dtype != np.intp:\n\t\t\t\tfor i in index:\n\t\t\t\t\tself._check_index(i)\n", 'X1'),
+    V('E: fill loop writes through the element hook of the result', 'E', _B, _FILL, "\t\tfor i, idx in enumerate(indices):\n\t\t\tnp.copyto(out._getitem_int(i), self._getitem_int(idx), casting='unsafe')\n"),
+    V('element-hook fill loop addresses the slot by the requested index', 'B', _B, _FILL, "\t\tfor i, idx in enumerate(indices):\n\t\t\tnp.copyto(out._getitem_int(idx), self._getitem_int(idx), casting='unsafe')\n", 'X5'),
+    V('E: copy loop shared with the constructor in a method fed with a lazy map', 'E', _B, _FILL, "\t\tout._fill(map(self._getitem_int, indices))\n",
+      also=[(_B, _INIT_FILL, "\t\t\tself._fill(signatures)\n"), (_B, _INIT_FROM, _INIT_FROM + _FILL_METHOD)]),
+    V('shared copy loop fed with the indices in reverse', 'B', _B, _FILL, "\t\tout._fill(map(self._getitem_int, indices[::-1]))\n", 'X5',
+      also=[(_B, _INIT_FILL, "\t\t\tself._fill(signatures)\n"), (_B, _INIT_FROM, _INIT_FROM + _FILL_METHOD)]),
+    V('shared copy loop writes every signature into slot 0', 'B', _B, _FILL, "\t\tout._fill(map(self._getitem_int, indices))\n", 'X5',
+      also=[(_B, _INIT_FILL, "\t\t\tself._fill(signatures)\n"), (_B, _INIT_FROM, _INIT_FROM + _FILL_METHOD.replace("self[i]", "self[0]"))]),
+    # ---- X1: conversions decided by their meaning
+    V('negative entries converted only when there are none', 'B', _I, "\t\t\tif isneg.any():\n", "\t\t\tif not isneg.any():\n", 'X1'),
+    V('E: negative conversion without the any() shortcut', 'E', _I, "\t\t\tif isneg.any():\n\t\t\t\t# Don't", "\t\t\tif True:\n\t\t\t\t# Don't"),
+    V('empty sequence becomes a one-element index', 'B', _I, "index = np.empty(0, dtype=int)", "index = np.empty(1, dtype=int)", 'X1'),
+    V('arrays are converted, sequences are not', 'B', _I, "\t\telif not isinstance(index, np.ndarray):\n", "\t\telif isinstance(index, np.ndarray):\n", 'X1'),
+    # ---- X8: construction arithmetic
+    V('E: bounds allocated uninitialised, first bound set explicitly', 'E', _B, _UNINIT,
+      "\t\tn = len(lengths)\n\t\tbounds = np.empty(n + 1, dtype=BOUNDS_DTYPE)\n\t\tbounds[0] = 0\n\t\tnp.cumsum(lengths, dtype=BOUNDS_DTYPE, out=bounds[1:])\n\t\ttotal = bounds[n]\n\t\treturn np.empty(total, dtype=dtype), bounds\n"),
+    V('E: running total assigned instead of written through out=', 'E', _B, "\t\tnp.cumsum(lengths, dtype=BOUNDS_DTYPE, out=bounds[1:])\n", "\t\tbounds[1:] = np.cumsum(lengths, dtype=BOUNDS_DTYPE)\n"),
+    V('uninitialised bounds without the first bound', 'B', _B, _UNINIT,
+      "\t\tn = len(lengths)\n\t\tbounds = np.empty(n + 1, dtype=BOUNDS_DTYPE)\n\t\tnp.cumsum(lengths, dtype=BOUNDS_DTYPE, out=bounds[1:])\n\t\ttotal = bounds[n]\n\t\treturn np.empty(total, dtype=dtype), bounds\n", 'X8'),
+    V('running total never written', 'B', _B, "\t\tnp.cumsum(lengths, dtype=BOUNDS_DTYPE, out=bounds[1:])\n", "", 'X8'),
+    V('bounds array one entry short', 'B', _B, "bounds = np.zeros(len(lengths) + 1, dtype=BOUNDS_DTYPE)", "bounds = np.zeros(len(lengths), dtype=BOUNDS_DTYPE)", 'X8'),
+    V('running total written from the first bound on', 'B', _B, "out=bounds[1:])", "out=bounds[:-1])", 'X8'),
+    V('values sized by the last but one bound', 'B', _B, "values = np.empty(bounds[-1], dtype=dtype)", "values = np.empty(bounds[-2], dtype=dtype)", 'X8'),
+    V('values allocated before the running total is written', 'B', _B, _UNINIT,
+      "\t\tbounds = np.zeros(len(lengths) + 1, dtype=BOUNDS_DTYPE)\n\t\tvalues = np.empty(bounds[-1], dtype=dtype)\n\t\tnp.cumsum(lengths, dtype=BOUNDS_DTYPE, out=bounds[1:])\n\t\treturn values, bounds\n", 'X8'),
+    V('_uninit_arrays returns (bounds, values)', 'B', _B, "\t\tvalues = np.empty(bounds[-1], dtype=dtype)\n\t\treturn values, bounds\n", "\t\tvalues = np.empty(bounds[-1], dtype=dtype)\n\t\treturn bounds, values\n", 'X8'),
+    V('bounds in the default integer dtype', 'B', _B, "bounds = np.zeros(len(lengths) + 1, dtype=BOUNDS_DTYPE)", "bounds = np.zeros(len(lengths) + 1, dtype=np.int32)", 'X8'),
+    V('constructor never copies the signatures', 'B', _B, _INIT_FILL, "\t\t\tpass\n", 'X8'),
+    V('constructor copies the slot into the signature', 'B', _B, "np.copyto(self[i], sig, casting='unsafe')", "np.copyto(sig, self[i], casting='unsafe')", 'X8'),
+    V('constructor installs (bounds, values)', 'B', _B, "\t\t\tself._init_from_arrays(values, bounds, kmerspec)\n\n\t\t\t# Copy signatures", "\t\t\tself._init_from_arrays(bounds, values, kmerspec)\n\n\t\t\t# Copy signatures", 'X8'),
+    V('constructor measures the signatures in sorted order', 'B', _B, "lengths = list(map(len, signatures))", "lengths = sorted(map(len, signatures))", 'X8'),
+    V('constructor default dtype logic inverted', 'B', _B, "\t\t\tif dtype is None:\n\t\t\t\t# Get dtype from first signature", "\t\t\tif dtype is not None:\n\t\t\t\t# Get dtype from first signature", 'X8'),
+    V('copy constructor shares the bounds array', 'B', _B, "bounds = signatures.bounds.copy()", "bounds = signatures.bounds", 'X8'),
+    V('copy constructor ignores the requested dtype', 'B', _B, "values = signatures.values.astype(dtype)", "values = signatures.values.copy()", 'X8'),
+    V('constructor fills before the arrays are installed', 'B', _B, "\t\t\tself._init_from_arrays(values, bounds, kmerspec)\n\n\t\t\t# Copy signatures to values array\n" + _INIT_FILL,
+      "\t\t\t# Copy signatures to values array\n" + _INIT_FILL + "\t\t\tself._init_from_arrays(values, bounds, kmerspec)\n", 'X8'),
+    V('E: constructor with comprehension, conditional expression and early return', 'E', _B, _SA_INIT_BODY, _SA_INIT_ALT),
+    V('from_arrays never initialises the instance', 'B', _B, "\t\tsa._init_from_arrays(values, bounds, kmerspec)\n", "", 'X8'),
+    V('from_arrays installs (bounds, values)', 'B', _B, "sa._init_from_arrays(values, bounds, kmerspec)", "sa._init_from_arrays(bounds, values, kmerspec)", 'X8'),
+    V('uninitialized wraps (bounds, values)', 'B', _B, "return cls.from_arrays(values, bounds, kmerspec)", "return cls.from_arrays(bounds, values, kmerspec)", 'X8'),
+    V('uninitialized default dtype inverted', 'B', _B, "kmerspec.index_dtype if dtype is None else dtype", "kmerspec.index_dtype if dtype is not None else dtype", 'X8'),
+    V('E: uninitialized resolves the default dtype in a statement', 'E', _B, "\t\tvalues, bounds = cls._uninit_arrays(lengths, kmerspec.index_dtype if dtype is None else dtype)\n",
+      "\t\tif dtype is None:\n\t\t\tdtype = kmerspec.index_dtype\n\n\t\tvalues, bounds = cls._uninit_arrays(lengths, dtype)\n"),
+    V('E: SignatureList constructor as resolve-then-assign', 'E', _B, _SL_INIT_BODY, _SL_INIT_ALT),
+    V('resolve-then-assign SignatureList takes the source kmerspec even when one is given', 'B', _B, _SL_INIT_BODY, _SL_INIT_ALT.replace("if kmerspec is None and from_sigarray:", "if from_sigarray:"), 'X8'),
+    V('SignatureList kmerspec default with or', 'B', _B, "\t\tself._list = list(signatures)\n\n\t\tif kmerspec is None and isinstance(signatures, AbstractSignatureArray):", "\t\tself._list = list(signatures)\n\n\t\tif kmerspec is None or isinstance(signatures, AbstractSignatureArray):", 'X8'),
+    V('SignatureList ignores a given dtype', 'B', _B, "\t\tif dtype is not None:\n\t\t\tself.dtype = dtype\n\t\telif", "\t\tif dtype is None:\n\t\t\tself.dtype = dtype\n\t\telif", 'X8'),
+    V('SignatureList takes the dtype of the second signature', 'B', _B, "self.dtype = self._list[0].dtype", "self.dtype = self._list[1].dtype", 'X8'),
+    V('SignatureList first-signature dtype for empty lists', 'B', _B, "\t\telif len(self._list) > 0:\n", "\t\telif len(self._list) >= 0:\n", 'X8'),
+    V('AnnotatedSignatures default ids test inverted', 'B', _B, "\t\tif ids is None:\n\t\t\tids = range(len(signatures))", "\t\tif ids is not None:\n\t\t\tids = range(len(signatures))", 'X8'),
+    V('AnnotatedSignatures rejects the right number of ids', 'B', _B, "elif len(ids) != len(signatures):", "elif len(ids) == len(signatures):", 'X8'),
+    V('AnnotatedSignatures default meta test inverted', 'B', _B, "\t\tif meta is None:\n\t\t\tmeta = SignaturesMeta()", "\t\tif meta is not None:\n\t\t\tmeta = SignaturesMeta()", 'X8'),
+    V('AnnotatedSignatures default ids one short', 'B', _B, "ids = range(len(signatures))", "ids = range(len(signatures) - 1)", 'X8'),
+    V('E: AnnotatedSignatures with one length read and conditional expressions', 'E', _B, _AN_INIT_BODY, _AN_INIT_ALT),
+    V('conditional-expression AnnotatedSignatures keeps the default ids when ids are given', 'B', _B, _AN_INIT_BODY, _AN_INIT_ALT.replace("range(n) if ids is None else ids", "ids if ids is None else range(n)"), 'X8'),
+    V('sizes() skips the last signature', 'B', _B, "map(self.sizeof, range(len(self)))", "map(self.sizeof, range(len(self) - 1))", 'X8'),
+    V('constructor type test with crossed operands', 'B', _B, "\t\tif isinstance(signatures, SignatureArray):\n\t\t\t# Can just copy", "\t\tif isinstance(SignatureArray, signatures):\n\t\t\t# Can just copy", 'X8'),
+    V('__eq__ type test with crossed operands', 'B', _B, "\t\tif isinstance(other, AbstractSignatureArray):\n\t\t\treturn self.kmerspec", "\t\tif isinstance(AbstractSignatureArray, other):\n\t\t\treturn self.kmerspec", 'X7'),
+    V('sigarray_eq with or instead of and', 'B', _B, _SIGEQ, "\treturn len(a1) == len(a2) or all(map(np.array_equal, a1, a2))", 'X7'),
+    V('E: __eq__ as one conditional expression', 'E', _B, _EQ, "\t\treturn (self.kmerspec == other.kmerspec and sigarray_eq(self, other)) if isinstance(other, AbstractSignatureArray) else NotImplemented\n"),
+    V('conditional-expression __eq__ with the arms crossed', 'B', _B, _EQ, "\t\treturn NotImplemented if isinstance(other, AbstractSignatureArray) else (self.kmerspec == other.kmerspec and sigarray_eq(self, other))\n", 'X7'),
+    V('E: __eq__ compares the k-mer parameters in a guard of its own', 'E', _B, _EQ,
+      "\t\tif not isinstance(other, AbstractSignatureArray):\n\t\t\treturn NotImplemented\n\t\tif self.kmerspec != other.kmerspec:\n\t\t\treturn False\n\t\treturn sigarray_eq(self, other)\n"),
+    V('guarded __eq__ returns True for different k-mer parameters', 'B', _B, _EQ,
+      "\t\tif not isinstance(other, AbstractSignatureArray):\n\t\t\treturn NotImplemented\n\t\tif self.kmerspec != other.kmerspec:\n\t\t\treturn True\n\t\treturn sigarray_eq(self, other)\n", 'X7'),
+    V('E: sizes() as a comprehension', 'E', _B, "np.fromiter(map(self.sizeof, range(len(self))), dtype=int)", "np.array([self.sizeof(i) for i in range(len(self))], dtype=int)"),
     V('E: out-of-place conversion', 'E', _I, "\t\t\t\tindex = index.copy()\n\t\t\t\tnp.add(index, len(self), out=index, where=isneg)\n", "\t\t\t\tindex = np.where(isneg, index + len(self), index)\n"),
 ]
